@@ -61,34 +61,59 @@ def check(run):
                 e = oracle.err(ex, zp[m]) / ((m + 1) * EPS)
                 worst = max(worst, e)
                 run.gap_case("cpow-vs-exact", (z, M, m), lab, {"z": [z.real, z.imag], "M": M, "m": m, "err_over_(m+1)eps": round(e, 3)})
-                if e > K_BOUND:
+                if not (e <= K_BOUND):
                     run.violation("power-inaccurate", "complex_powers", {**inp, "m": m}, str(oracle.to_complex(ex)), str(complex(zp[m])), detail={"err_over_(m+1)eps": e, "stratum": lab})
                     break
     run.notes["worst_err_over_(m+1)eps"] = round(worst, 3)
-    # array shapes and supplied output array
-    for shape in [(), (1,), (3,), (2, 3), (2, 1, 2)]:
-        t = np.array([rng.uniform(0, 2 * math.pi) for _ in range(int(np.prod(shape)) if shape else 1)]).reshape(shape)
+    # array shapes, memory layouts and supplied output array: entry [idx, m] must be the power of z[idx] whatever the layout
+    def layouts(shape):
+        n = int(np.prod(shape)) if shape else 1
+        t = np.array([rng.uniform(0, 2 * math.pi) for _ in range(n)]).reshape(shape)
         z = np.exp(1j * t)
-        for M in (0, 1, 5):
-            a = complex_powers(z, M)
-            run.gap_case("shapes", (shape, M), "shape")
-            if a.shape != shape + (M + 1,):
-                run.violation("shape", "complex_powers", {"z_shape": list(shape), "M": M}, list(shape + (M + 1,)), list(a.shape))
+        yield "C", z
+        if len(shape) >= 2:
+            yield "F", np.asfortranarray(z)
+            yield "transposed-view", np.ascontiguousarray(z.T).T
+            yield "permuted-axes", np.ascontiguousarray(np.moveaxis(z, 0, -1)).__array__().transpose([len(shape) - 1] + list(range(len(shape) - 1)))
+        if shape and shape[-1] >= 1:
+            wide = np.exp(1j * np.array([rng.uniform(0, 2 * math.pi) for _ in range(2 * n)])).reshape(shape[:-1] + (2 * shape[-1],))
+            yield "strided", wide[..., ::2]
+            yield "reversed", z[..., ::-1]
+    for shape in [(), (1,), (3,), (2, 3), (3, 2), (2, 1, 2), (2, 3, 4)]:
+        for layout, z in layouts(shape):
+            if z.shape != shape:
+                run.corr_break("harness:layout", f"layout generator produced shape {z.shape} for {shape}")
                 continue
-            buf = np.full((z.size, M + 1), np.nan + 0j)
-            b = complex_powers(z, M, buf)
-            if not np.shares_memory(b, buf) or not np.array_equal(b.reshape(a.shape), a):
-                run.violation("out-array-not-used-or-differs", "complex_powers", {"z_shape": list(shape), "M": M}, "same values written into supplied array", "differs")
-            flat = z.ravel()
-            for i in range(flat.size):
-                if not np.array_equal(a.reshape(-1, M + 1)[i], complex_powers(complex(flat[i]), M)):
-                    run.violation("vectorised-differs-from-scalar", "complex_powers", {"z_shape": list(shape), "M": M, "i": i}, "same", "differs")
+            for M in (0, 1, 5):
+                inp = {"z_shape": list(shape), "layout": layout, "M": M, "z": [[float(v.real), float(v.imag)] for v in np.array(z).ravel()]}
+                a = complex_powers(z, M)
+                run.gap_case("shapes", (shape, layout, M), f"shape|{layout}")
+                if a.shape != shape + (M + 1,):
+                    run.violation("shape", "complex_powers", inp, list(shape + (M + 1,)), list(a.shape))
+                    continue
+                buf = np.full((z.size, M + 1), np.nan + 0j)
+                b = complex_powers(z, M, buf)
+                if not np.shares_memory(b, buf) or not np.array_equal(b.reshape(a.shape), a):
+                    run.violation("out-array-not-used-or-differs", "complex_powers", inp, "same values written into supplied array", "differs")
+                for idx in np.ndindex(*shape):
+                    if not np.array_equal(a[idx], complex_powers(complex(z[idx]), M)):
+                        run.violation("vectorised-differs-from-scalar", "complex_powers", {**inp, "index": list(idx)}, "powers of z[index]", "differs")
+                        break
     run.assumptions += ["(m+1) eps bound checked by oracle sampling (no theorem); np.sqrt of a complex number is a parameter of the model"]
 
 
 def replay(body):
     from spherical.recursions.complex_powers import complex_powers
     inp = body["input"]
+    if "z_shape" in inp:
+        import numpy as np
+        z = np.array([complex(*v) for v in inp["z"]]).reshape(inp["z_shape"])
+        if inp.get("layout") in ("F", "transposed-view", "permuted-axes"):
+            z = np.asfortranarray(z)
+        a = complex_powers(z, inp["M"])
+        bad = [idx for idx in np.ndindex(*z.shape) if not np.array_equal(a[idx], complex_powers(complex(z[idx]), inp["M"]))]
+        print("indices whose row is not the powers of z[index]:", bad)
+        return 0
     z = complex(*inp["z"])
     zp = complex_powers(z, inp["M"])
     m = inp.get("m", 1)
